@@ -405,3 +405,65 @@ def classify_tool_output(err):
         return None
     snippet = err[start:start + 5000]
     return {"kind": kind, "in_repo": bool(_REPO_FRAME.search(snippet)), "snippet": snippet[:2500]}
+
+
+def run_tool(prop, name, cmd, env, reqs, wdir, timeout):
+    """Run the probe under a tool on `reqs`; judge values too. Returns dict."""
+    os.makedirs(wdir, exist_ok=True)
+    reqfile = os.path.join(wdir, name + ".req")
+    outfile = os.path.join(wdir, name + ".out")
+    open(reqfile, "w").write("\n".join(reqs) + "\n")
+    t0 = time.time()
+    try:
+        p = subprocess.run(cmd + [reqfile, outfile], env=env, stdout=subprocess.PIPE, stderr=subprocess.PIPE,
+                           timeout=timeout, text=True, cwd=B.DRIVER)
+    except subprocess.TimeoutExpired:
+        return {"tool": name, "status": "inconclusive", "why": "watchdog after %ds" % timeout}
+    res = {"tool": name, "requests": len(reqs), "wall_s": round(time.time() - t0, 1), "exit": p.returncode}
+    rep = classify_tool_output(p.stderr)
+    if rep is not None:
+        if rep["kind"] == "miri-unsupported":
+            res.update(status="inconclusive", why="tool: unsupported operation", report=rep["snippet"][:800])
+        else:
+            res.update(status="violation" if rep["in_repo"] else "foreign-report", kind=rep["kind"], report=rep["snippet"][:2000])
+        return res
+    if p.returncode != 0:
+        res.update(status="inconclusive", why="tool exited with %d: %s" % (p.returncode, p.stderr[-500:]))
+        return res
+    out_lines = open(outfile).read().split("\n")
+    if out_lines and out_lines[-1] == "":
+        out_lines.pop()
+    st = Stats()
+    judge_batch(prop, reqs, out_lines, name, st)
+    res.update(status="ok" if not st.violations and not st.errors else ("violation" if st.violations else "inconclusive"),
+               events=st.evaluations, value_violations=st.violations[:3], errors=st.errors[:2])
+    return res
+
+
+
+
+def fold_tool_runs(pid, code, ev, tools, wdir, tier, seed):
+    """Fold sanitizer / interpreter runs into verdict + evidence. Returns the new exit code."""
+    ev["coverage"]["tool_runs"] = tools
+    bad = [t for t in tools if t["status"] == "violation"]
+    inconc = [t for t in tools if t["status"] == "inconclusive"]
+    ev["coverage"]["evaluations"] += sum(t.get("events", 0) for t in tools)
+    if bad and code != 1:
+        rp = os.path.join(B.ROOT, "replays", "%s-%s-%s-%d.req" % (pid, bad[0]["tool"], tier, seed))
+        src = os.path.join(wdir, bad[0]["tool"] + ".req")
+        what = str(bad[0].get("report", bad[0].get("value_violations")))
+        with open(rp, "w") as f:
+            f.write("# property %s\n# tool %s\n# %s\n" % (pid, bad[0]["tool"], what[:1500].replace("\n", "\n# ")))
+            if os.path.exists(src):
+                f.write(open(src).read())
+        print("  %s report: %s" % (bad[0]["tool"], what[:700]))
+        print("VIOLATION property=%s replay=%s" % (pid, rp))
+        code = 1
+        ev["verdict"] = "violated"
+        ev["violations"] = ev.get("violations", 0) + len(bad)
+    elif inconc and code == 0:
+        print("INCONCLUSIVE property=%s tool run: %s" % (pid, str(inconc[0])[:600]))
+        code = 3
+        ev["verdict"] = "inconclusive"
+    print("%s tool runs: %s" % (pid, ", ".join("%s=%s(%s events, %ss)" % (t["tool"], t["status"], t.get("events", "-"), t.get("wall_s", "-")) for t in tools)))
+    return code
